@@ -17,7 +17,7 @@
    rejected, being either oversized or non-minimal.  Close codes: valid = 1000-1003, 1007-1013,
    3000-4999 (RFC 7.4.1/7.4.2 plus the two IANA registrations the library's table cites). *)
 From Verif Require Import Lib.Base Lib.Sx Lib.Utf8 Model.WsRead.
-From Verif Require Import Proofs.WsReadUtf8 Proofs.WsRead Proofs.WsReadRefine Proofs.WsReadProps Proofs.WsReadCut Proofs.WsReadFrames.
+From Verif Require Import Proofs.WsReadUtf8 Proofs.WsRead Proofs.WsReadRefine Proofs.WsReadProps Proofs.WsReadCut Proofs.WsReadFrames Proofs.WsReadApp.
 From Verif Require Import Gen.Gen_websocket.
 Open Scope Z_scope.
 
@@ -125,6 +125,43 @@ Theorem c14_top_bit_not_a_frame fin rsv op masked len key rest :
   rfc_header (ser_header fin rsv op masked 64 len key ++ rest) = HBadLen.
 Proof. exact (top_bit_not_a_frame fin rsv op masked len key rest). Qed.
 
+(* The application has sent its own Close frame (WriteControl / WriteMessage(CloseMessage); [own] =
+   what it has written so far, the close-sent latch is set) and keeps reading.  For every byte
+   stream the peer still sends: the reads return exactly what the RFC receiver delivers -- every
+   message up to the peer's Close, Pings inside or between messages notwithstanding (their Pongs
+   can no longer be written; that failure never surfaces as a read error) -- then the error the
+   outcome calls for (the peer's CloseError with its status and reason for a peer Close),
+   permanently; and nothing at all is written after the own Close. *)
+Theorem c14_after_own_close server limit extra bs own :
+  wf_bytes bs -> limit < 9223372036854775808 -> (extra < 999)%nat ->
+  exists e closefr c',
+    agrees (snd (rfc_receive server limit bs)) e closefr /\
+    read_loop (S (length bs)) extra true (set_out (new_conn server limit bs) own true) [] =
+      Ok (c', rev (msgs_of (fst (rfc_receive server limit bs)) ++ repeat (RErr e) (S extra))) /\
+    c_out c' = own.
+Proof. exact (after_own_close server limit extra bs own). Qed.
+
+(* ... and for ANY application writes (WriteControl / WriteMessage of any type and payload, own Close
+   included) at ANY read boundaries: the values the reads return are those of the session without
+   them (so c14_refines_rfc describes them), for every input, repaired or pinned code. *)
+Theorem c14_app_writes_do_not_change_reads fixed server limit apps bs :
+  match lib_session_app fixed server limit apps bs, lib_session fixed server limit 0 bs with
+  | Ok (rs1, _, _), Ok (rs2, _) => rs1 = rs2
+  | Err e1, Err e2 => e1 = e2
+  | Panic s1, Panic s2 => s1 = s2
+  | _, _ => False
+  end.
+Proof. exact (app_writes_do_not_change_reads fixed server limit apps bs). Qed.
+
+(* every reader state: once the close-sent latch is set a frame step writes nothing (no Pong, no
+   second Close) and the latch stays set *)
+Theorem c14_latched_writes_nothing fixed c : c_wclosed c = true ->
+  match advance_frame fixed c with
+  | MOk c' _ | MErr c' _ => c_out c' = c_out c /\ c_wclosed c' = true
+  | MPanic _ => True
+  end.
+Proof. exact (latched_writes_nothing fixed c). Qed.
+
 (* No run-time panic for any byte stream and fewer than 1000 failed reads (C07 imports this). *)
 Theorem ws_read_total server limit extra bs :
   wf_bytes bs -> limit < 9223372036854775808 -> (extra < 999)%nat ->
@@ -172,6 +209,9 @@ Print Assumptions c14_frame_parses_back.
 Print Assumptions c14_data_frame_step.
 Print Assumptions c14_any_fragmentation.
 Print Assumptions c14_top_bit_not_a_frame.
+Print Assumptions c14_after_own_close.
+Print Assumptions c14_app_writes_do_not_change_reads.
+Print Assumptions c14_latched_writes_nothing.
 Print Assumptions ws_read_total.
 Print Assumptions ws_advance_total.
 Print Assumptions ws_read_total_all.
